@@ -1,7 +1,7 @@
 #!/bin/bash
-# usage: confirm_seed.sh <ID> <crate>   -- re-confirms an agent's seeded change in its scratch worktree
+# usage: confirm_seed.sh <worktree> <crate> <baseline-listing> -- re-confirms an agent's seeded change in its scratch worktree
 set -u
-ID=$1; CRATE=$2; WT=/tmp/wt-$ID
+WT=$1; CRATE=$2; BASE=$3
 cd $WT || exit 2
 echo "== demo WITH the change (expected: fails)"
 cargo test -p $CRATE --test seeded_demo --offline 2>&1 | grep -E "^test result|^test .* (ok|FAILED)" | head -8
@@ -10,6 +10,5 @@ echo "== demo WITHOUT the change (expected: passes)"
 cargo test -p $CRATE --test seeded_demo --offline 2>&1 | grep -E "^test result|^test .* (ok|FAILED)" | head -8
 git apply seeded_out/patch.diff || exit 2
 echo "== existing suite with the change vs the agent's baseline listing"
-cargo test --workspace --no-fail-fast --offline 2>&1 | grep -E "^test .* (ok|FAILED)$" | sort > /tmp/confirm-$ID.txt
-diff /tmp/base-$ID.txt /tmp/confirm-$ID.txt | grep -v seeded_demo | grep -v "^[0-9]" | head -5
-echo "== ok->FAILED regressions: $(comm -23 <(grep ' ok$' /tmp/base-$ID.txt) <(grep ' ok$' /tmp/confirm-$ID.txt) | wc -l)"
+cargo test --workspace --no-fail-fast --offline 2>&1 | grep -E "^test .* (ok|FAILED)$" | sort > $BASE.confirm
+echo "== ok->FAILED regressions: $(comm -23 <(grep ' ok$' $BASE) <(grep ' ok$' $BASE.confirm) | wc -l)"
